@@ -11,7 +11,7 @@ import re, inspect, io, contextlib, os, sys, logging
 logging.disable(logging.CRITICAL)
 HERE = os.path.dirname(os.path.abspath(__file__))
 ROOT = os.path.abspath(os.path.join(HERE, '..'))
-GEN = os.path.join(ROOT, 'lean', 'TealerModel', 'Generated')
+GEN = os.environ.get('VERIF_GEN_DIR') or os.path.join(ROOT, 'lean', 'TealerModel', 'Generated')   # VERIF_GEN_DIR: development sweeps against a scratch copy of the repository
 sys.path.insert(0, HERE)
 
 
